@@ -280,6 +280,20 @@ func (m *ModSets) callArgMods(fn *ssa.Function, call *ssa.CallCommon, lib bool) 
 				out = append(out, m.addrComps(fn, a)...)
 			}
 		}
+		if lib && !pureLibCall(call) {
+			// a library function may fill the struct a pointer argument refers to (directly or boxed in an interface)
+			pv := a
+			if mi, ok := a.(*ssa.MakeInterface); ok {
+				pv = mi.X
+			}
+			if pt, ok := pv.Type().Underlying().(*types.Pointer); ok && !isLocValue(pv) {
+				if su, ok := pt.Elem().Underlying().(*types.Struct); ok && !readOnlyPtrArg(call) && libMayFill(call, pt.Elem()) {
+					for i := 0; i < su.NumFields(); i++ {
+						out = append(out, m.regField(pt.Elem(), i))
+					}
+				}
+			}
+		}
 		if lib {
 			if s, ok := a.Type().Underlying().(*types.Slice); ok {
 				if _, isIface := s.Elem().Underlying().(*types.Interface); isIface {
@@ -671,4 +685,49 @@ func (m *ModSets) cannotReturnGlobal(call *ssa.CallCommon, global string) bool {
 		return true
 	}
 	return false // dynamic call through an unknown function value
+}
+
+// readOnlyPtrArg: library functions that only read the structs their pointer arguments refer to.
+func readOnlyPtrArg(call *ssa.CallCommon) bool {
+	pp := calleePkgPath(call)
+	switch pp {
+	case "fmt", "errors", "github.com/pkg/errors", "google.golang.org/grpc/status", "context", "sync", "sync/atomic", "time",
+		"github.com/sirupsen/logrus", "log", "strings", "bytes", "os", "path/filepath", "runtime", "reflect":
+		return true
+	}
+	if f, ok := call.Value.(*ssa.Function); ok {
+		switch f.String() {
+		case "github.com/golang/protobuf/proto.Marshal", "google.golang.org/protobuf/proto.Marshal", "encoding/json.Marshal",
+			"(*github.com/nats-io/nats.go.Conn).Publish", "(*github.com/nats-io/nats.go.Conn).Request", "(*github.com/nats-io/nats.go.Msg).Respond":
+			return true
+		}
+	}
+	if call.IsInvoke() {
+		switch call.Method.Name() {
+		case "Debugf", "Infof", "Warnf", "Errorf", "Info", "Debug", "Error", "Warn", "Send", "Marshal", "String", "Error()", "Context":
+			return true
+		}
+	}
+	return false
+}
+
+// libMayFill: can the library callee write the fields of a struct of this type? Structs defined in
+// the module are filled by library code only through decoders (reflection); other structs always may be.
+func libMayFill(call *ssa.CallCommon, t types.Type) bool {
+	n, ok := t.(*types.Named)
+	if !ok || n.Obj().Pkg() == nil || !isModPath(n.Obj().Pkg().Path()) {
+		return true
+	}
+	name := ""
+	if f, ok := call.Value.(*ssa.Function); ok {
+		name = f.Name()
+	} else if call.IsInvoke() {
+		name = call.Method.Name()
+	}
+	for _, k := range []string{"Unmarshal", "Decode", "Read", "Scan", "Parse"} {
+		if strings.Contains(name, k) {
+			return true
+		}
+	}
+	return false
 }
